@@ -140,10 +140,12 @@ inline uint32_t gen_u32(sim::Stream s) {
 }
 
 inline uint32_t gen_time(sim::Stream s) {
-    switch (sim::choose(s, 6)) {
+    switch (sim::choose(s, 8)) {
         case 0: return 0;
         case 1: return 1;
         case 2: return 0x7fffffffU;
+        case 6: return 0x80000000U;   // "any uint32 timestamp"
+        case 7: return 0xffffffffU;
         case 3: return 1234567890U;
         default: return 1000000000U + sim::choose(s, 600000000U);
     }
@@ -161,6 +163,7 @@ inline Obj gen_obj(char type, int64_t base_id, const Profile& p) {
     o.version = p.history ? 1 + sim::choose(s, 5) : gen_u32(s);
     o.visible = p.history ? (sim::choose(s, 4) != 0) : true;
     o.changeset = gen_u32(s);
+    if (sim::choose(s, 10) == 9) { o.changeset = sim::choose(s, 2) ? 0xfffffffeU : 0x80000000U; }   // large changeset ids (2^32-1 itself is rejected by every reader: types_from_string.hpp:116, pbf_decoder.hpp:287)
     o.timestamp = gen_time(s);
     o.uid = gen_u32(s);
     o.user = (o.uid == 0 && sim::choose(s, 2)) ? std::string{} : gen_string(s, p.nasty_strings);
